@@ -1438,6 +1438,11 @@ impl Ref {
             } => {
                 let p = format!("{}? ", prompt.clone().unwrap_or_default());
                 loop {
+                    self.steps += 1;
+                    if self.steps > self.max_steps {
+                        self.grey("step budget exceeded");
+                        return Ok(Flow::Stop(Ended::Budget));
+                    }
                     self.emit(&p);
                     if *nocaps {
                         self.out.push_str("{nocaps}");
@@ -1447,6 +1452,9 @@ impl Ref {
                         None => {
                             let tys: Vec<Ty> = targets.iter().map(|t| self.type_of(&t.var)).collect();
                             let streak = self.bad_streak;
+                            if self.used_replies.len() >= 40 {
+                                return Ok(Flow::Stop(Ended::NeedInput));
+                            }
                             match &mut self.auto_reply {
                                 Some(rng) => {
                                     let bad = streak < 2 && rng.pct(25);
